@@ -53,7 +53,6 @@ static void grid_scenarios() {
                [st]() { return mk_grid(0, (st + 2) % 3); }, [](Grid& x, const Grid& y) { x.widening_assign(y); });
     dscn<Grid>(dn + ".generator_widening" + sfx, [st]() { Grid* p = mk_grid(0, st); Grid* q = mk_grid(1, 0); p->upper_bound_assign(*q); delete q; return p; },
                [st]() { return mk_grid(0, (st + 2) % 3); }, [](Grid& x, const Grid& y) { x.generator_widening_assign(y); });
-    dscn<Grid>(dn + ".ascii_dump_load" + sfx, X, none, [](Grid& x, const Grid&) { std::stringstream ss; x.ascii_dump(ss); Grid z(1); z.ascii_load(ss); x.m_swap(z); });
     dscn<Grid>(dn + ".wrap_assign" + sfx, X, none, [](Grid& x, const Grid&) { Variables_Set vs; vs.insert(Variable(0)); x.wrap_assign(vs, BITS_8, UNSIGNED, OVERFLOW_WRAPS); });
     dscn<Grid>(dn + ".simplify_using_context" + sfx, X, Y, [](Grid& x, const Grid& y) { (void) x.simplify_using_context_assign(y); });
   }
@@ -126,7 +125,6 @@ static void mip_scenarios() {
     mip_scn("MIP.copy" + sfx, v, [](MIP_Problem& p) { MIP_Problem z(p); p.m_swap(z); });
     mip_scn("MIP.assign" + sfx, v, [](MIP_Problem& p) { MIP_Problem* q = mk_mip(1); try { p = *q; } catch (...) { delete q; throw; } delete q; });
     mip_scn("MIP.steepest_edge" + sfx, v, [](MIP_Problem& p) { p.set_control_parameter(MIP_Problem::PRICING_STEEPEST_EDGE_EXACT); (void) p.solve(); });
-    mip_scn("MIP.ascii" + sfx, v, [](MIP_Problem& p) { std::stringstream ss; p.ascii_dump(ss); MIP_Problem z; z.ascii_load(ss); p.m_swap(z); });
   }
 }
 struct PipScn : Scn {
@@ -164,7 +162,6 @@ static void pip_scenarios() {
     pip_scn("PIP.copy" + sfx, v, [](PIP_Problem& p) { PIP_Problem z(p); p.m_swap(z); });
     pip_scn("PIP.assign" + sfx, v, [](PIP_Problem& p) { PIP_Problem* q = mk_pip(2); try { p = *q; } catch (...) { delete q; throw; } delete q; });
     pip_scn("PIP.big_parameter" + sfx, v, [](PIP_Problem& p) { p.set_big_parameter_dimension(3); (void) p.solve(); });
-    pip_scn("PIP.ascii" + sfx, v, [](PIP_Problem& p) { std::stringstream ss; p.ascii_dump(ss); PIP_Problem z; z.ascii_load(ss); p.m_swap(z); });
   }
 }
 
